@@ -37,7 +37,10 @@ NAMES = ['aa', 'bb', 'cc', 'aa.bb', 'aa.cc', 'bb.aa', 'aa.bb.cc', 'aa.bb.aa', 'b
 EXCLUDED = ['beartype', 'pydantic', 'urllib3']
 INVALID = ['', '1x', 'aa..bb', 'aa.', 'a-b']
 CONFS = [None, {'is_color': False}, {'tower': True}, {'vt': 'valueerror'}, {'skip': ['aa.bb']}, {'skip': ['cc', 'bb.aa']},
-         {'tower': True, 'skip': ['aa.cc']}]
+         {'tower': True, 'skip': ['aa.cc']},
+         # skip names that are dotted ancestors / descendants of one another, within one list and across configurations
+         {'skip': ['aa', 'aa.bb']}, {'skip': ['aa.bb.cc']}, {'is_color': False, 'skip': ['aa.bb', 'aa']}, {'skip': ['bb']},
+         {'vt': 'valueerror', 'skip': ['aa.bb.cc.aa', 'bb.cc']}]
 
 
 def tiers(tier):
